@@ -68,7 +68,7 @@ CHECKS = {
             "Machine-checked: get_path resolves every well-formed chain (any sector order) to exactly its sectors (C07_getPath_wf), whatever it returns is a chain of the table (C07_getPath_sound), and on EVERY table "
             "(cycles, self-links, cross-links, out-of-range links) it ends with a path of at most `size` sectors or one of two reported errors (C07_getPath_total, C07_getPath_cycle_reported); add_to_sector_links installs exactly "
             "the chain it is given (C07_addLinks_chain); the AKAI SAT walk terminates on every word table — Lean's termination checker accepted the lexicographic measure (2*#clean - [current clean], size - current), proof in Smpl.Alloc.akai_measure — and the "
-            "Roland walk terminates by structural recursion on its loop guard. Decoder soundness: C07_roland_sound / C07_akai_sound — every entry of the decoded link table is an end mark or exactly the step the FAT / SAT word of that sector prescribes (a link word names the next sector, an AKAI directory-flag word continues with the following sector), on every table the decoder accepts; hence C07_roland_path_follows_fat / C07_akai_path_follows_sat: any chain get_path resolves over the decoded table follows the raw table. NOT yet proved (validated exhaustively instead): decoder completeness (a well-formed chain is installed whole). "
+            "Roland walk terminates by structural recursion on its loop guard. Decoder soundness: C07_roland_sound / C07_akai_sound — every entry of the decoded link table is an end mark or exactly the step the FAT / SAT word of that sector prescribes (a link word names the next sector, an AKAI directory-flag word continues with the following sector), on every table the decoder accepts; hence C07_roland_path_follows_fat / C07_akai_path_follows_sat: any chain get_path resolves over the decoded table follows the raw table. Decoder completeness for Roland: C07_roland_wf — a chain that is well formed in the raw FAT (each word names the next cluster, the last is an end mark) and whose head no FAT word points to is installed whole whenever the decoder accepts the table, so get_path from its head resolves exactly it (invariants over the walk and the outer loop: rolandWalk_chain, addLinks_installs_path, LoopInv). NOT yet proved (validated exhaustively instead): the same for the AKAI decoder, whose walks join onto already decoded chains. "
             "Tie: every raw AKAI table of 5 sectors over {free, EOF, both reserved flags, each link, out of range} and every small Roland table, decode + get_path from every start, model vs real code; property oracle computed from the raw words independently. "
             "Three genuine defects were found by this check and repaired (fix: commits 496f278, 38611f1, 60236d3)."
         ),
@@ -158,7 +158,7 @@ CHECKS = {
         text=(
             "Machine-checked: rd_setEntry / C14_other_entries — whatever 24 bytes replace entry k of an AKAI file table, every other entry parses to exactly what it parsed to before and its end-marker test is unchanged, because every entry is read at its own boundary 24*j (true after fix 3b83a7e; the pinned code lost all following entries: D9). "
             "Tie: for generated volumes every type-byte value and a set of values of each of the other 23 byte positions of an entry (thorough: all 256), plus multi-byte damage: ls + export compared with the undamaged run (oracle) and with the Lean model. "
-            "Recorded finding KF-C14-name-collision (a damaged name that now equals a sibling's name renames one of them: inherent to naming by stored name). Roland: C14_roland_other_samples — whatever bytes replace the directory and parameter records of sample i, every other sample's record parses to what it parsed to before (records of different indices do not overlap; directory area ends before the parameter area). Found and fixed through this check: 9b6f1ef (a damaged size that cuts a header inside an integer field crashed the whole volume)."
+            "Recorded finding KF-C14-name-collision (a damaged name that now equals a sibling's name renames one of them: inherent to naming by stored name). Roland: C14_roland_other_samples — whatever bytes replace the directory and parameter records of sample i, every other sample's record parses to what it parsed to before (records of different indices do not overlap; directory area ends before the parameter area). Harness: besides the AKAI byte sweep, every byte of one Roland sample's 32-byte directory record and 48-byte parameter record is damaged (4 values; thorough all 256 on one image) and the other samples of the performance must keep their names and audio. Found and fixed through this check: 9b6f1ef (a damaged size that cuts a header inside an integer field crashed the whole volume), 10aea0f (a reverse-mode sample whose damaged record addresses more than its clusters hold aborted the export with a numpy error)."
         ),
         design_ref="DESIGN.md §4 C14",
     ),
